@@ -216,8 +216,8 @@ fn run_script<T: Sc>(env: &Env<T>, sc: &Scen, phase: Phase, hist: &[usize], plan
                 let (fit, stats) = if phase == Phase::FitStats { p.fit_stats(LevenbergMarquardt::new()) } else { (p.fit(LevenbergMarquardt::new()), None) };
                 let fired_in_fit = plan.fired().len() > f1 || failed;
                 *o.info.entry(format!("termination:{}", fit.termination.split(['(', '{', ' ']).next().unwrap_or(""))).or_insert(0) += 1;
-                if phase == Phase::Fit && fit.ok != fit.was_successful {
-                    o.problems.push(("ok-iff-successful".into(), format!("fit returned {} but termination {} was_successful = {}", if fit.ok { "Ok" } else { "Err" }, fit.termination, fit.was_successful)));
+                if phase == Phase::Fit && (fit.ok != fit.report_successful || fit.was_successful != fit.report_successful) {
+                    o.problems.push(("ok-iff-successful".into(), format!("fit returned {} but termination {} was_successful = {} / {}", if fit.ok { "Ok" } else { "Err" }, fit.termination, fit.report_successful, fit.was_successful)));
                 }
                 let fp = fit.problem();
                 let present = fp.residuals().is_some() || fp.coefs().is_some();
